@@ -10,6 +10,10 @@ CONSTANTS
   NotifyPop = TRUE
   ReleaseOnEnd = TRUE
   Faults = TRUE
+  StopAfterSend = TRUE
+  CleanupOnDisc = TRUE
+  MaxSendFail = 1
+  Family = "none"
   MaxOps = 3
   MaxCancel = 1
   Depth = 0
